@@ -241,6 +241,97 @@ RAW = [
 
 
 # ----------------------------------------------------------------------------------------
+# structured URLs (hrefs assembled from protocol x userinfo x host x port x tail): the inputs
+# of the clause "every yielded link is accepted by is_url" / of `canonicalize_url preserves
+# is_url`; found by notes/c17-canon-isurl-search.py (9.7 M products, three classes of
+# counterexamples = the three known findings KF-C17-3/4/5)
+# ----------------------------------------------------------------------------------------
+U_PROTOS = ["http://", "https://", "HTTP://", "hTtPs://", "http" + LONG_S + "://"]
+U_UIS = ["", "u@", "u:p@", ":@", "u:@", ":p@", "u%40x:p%3A@", "a@b@", "u%20v@", "\xe9@", "U:P@", "u:p:q@", "%41@", "u%0A@", "a\x01b@", "\x01@"]
+U_HOSTS = [
+    "a.com", "A.COM", "a.b.co.uk", "localhost", "LOCALHOST", "1.2.3.4", "223.255.255.254", "1.02.3.4",
+    "xn--bcher-kva.de", "XN--BCHER-KVA.DE", "xn--ki8h.ws", "b\xfccher.de", "a_b.com", "a-b.com", "a--b.com",
+    "a.xn--p1ai", "a.\u0440\u0444", "xn--a.com", "xn--zz-.com", "a.museum", "a.invalidtld", "a" * 64 + ".com", "a" * 65 + ".com",
+    "0.0.0.0", "256.1.1.1", "a.b", "a.co", ASTRAL + ".ws", "xn--ls8h.la", "xn--80ak6aa92e.com", "a.com.", "xn--bcher-kva.xn--p1ai",
+]
+# hosts of the known findings: is_url accepts them only through a userinfo that crosses the
+# authority (KF-C17-3), or their canonical form is refused (KF-C17-4 puny label with a leading /
+# trailing hyphen, KF-C17-5 U+0130 lower-cases to two characters)
+U_HOSTS_ODD = ["x_.com", "-a.com", "a_.com", "1.02.003.4", "[::1]", "\uff11.2.3.4", "xn---a-cja.com", "xn----9fa.com", DOT_I * 40 + ".com"]
+U_PORTS = ["", ":80", ":443", ":8080", ":0", ":00", ":080", ":00080", ":65535", ":65536", ":99999", ":", ":1", ":\u0661"]
+U_TAILS = [
+    "", "/", "/a/b", "/a/../..", "/.", "/..", "/a/./b/", "//a//b", "?q=1", "?", "#", "#f", "/?#", "?a=1&b=2", "/%7Ex", "/%2e%2e/x",
+    "/a b", "/a\tb", "/a%0Ab", "/a%20", "/\xa0", "/%C2%A0", "/%E3%80%80", "/a\x01b", "/%40c.com", ";p=1", "/a;p?q#f", "/" + LSEP, "/%zz",
+    "/a%2Fb", "/a?b=%26&c=%3D%23", "/?a=b#%23", "/a/", "/a/.", "/a/..", "#a#b", "??", "/?b=2&a=1", "/\\", "/\x7f", "/\x85", "/ #", "# ", "/a\x1c",
+]
+# tails with an '@' behind the authority (the userinfo of the is_url patterns, \S+, reaches them)
+U_TAILS_AT = ["/@c.com", "/@c.com/..", "#@c.com", "?@c.com", "?a@c.com#f", "/x@c.com/../..", "?a=1#@"]
+U_RELATIVE = ["x", "../x", "./", "/abs", "//c.com/y", "?q", "#f", "a/../../b", "//c.com:080/%7E/../z", "//u@c.com", "/x@c.com/.."]
+
+
+def _esc_attr(h):
+    return h.replace("&", "&amp;").replace('"', "&quot;").replace("<", "&lt;").replace(">", "&gt;")
+
+
+def url_doc(hrefs, base, note=None):
+    return mk([anchor(_esc_attr(h)) for h in hrefs], base, note)
+
+
+def url_corpus():
+    b0 = BASES[0]
+    # KF-C17-3: the authority of the canonical link is not of url shape
+    yield url_doc(["http://x_.com/@c.com/.."], b0, "KF-C17-3")
+    yield url_doc(["http://x_.com#b@c.com/"], b0, "KF-C17-3 (strip_fragment)")
+    yield url_doc(["http://[::1]/@a.com/..", "http://-.com/@a.com/.."], b0, "KF-C17-3")
+    # KF-C17-4: punycode label whose decoding starts / ends with a hyphen
+    yield url_doc(["http://xn---a-cja.com/", "http://xn----9fa.com/x"], b0, "KF-C17-4")
+    # KF-C17-5: U+0130 lower-cases to two characters, the label outgrows 64
+    yield url_doc(["http://" + DOT_I * 40 + ".com/"], b0, "KF-C17-5")
+    # near misses that are fine
+    yield url_doc(["http://a.com/@c.com/..", "http://x_.com/@c.com", "http://xn---a-9ia.com/", "http://" + DOT_I * 30 + ".com/", "http://\x01@a.com", "http://:@a.com/"], b0)
+
+
+def url_hrefs(rng, tier):
+    """enumerated: every factor varied alone around http://a.com/a/b, then host x tail, userinfo
+    x host, port x host (the pairs that interact), then seeded random products"""
+    out = []
+    for p in U_PROTOS:
+        out.append(p + "a.com/a/b")
+    for ui in U_UIS:
+        for h in ["a.com", "xn--bcher-kva.de", "1.2.3.4", "localhost"]:
+            for t in ["", "/a/../..", "#f"]:
+                out.append("http://" + ui + h + t)
+    for h in U_HOSTS + U_HOSTS_ODD:
+        for t in U_TAILS + U_TAILS_AT:
+            out.append("http://" + h + t)
+    for po in U_PORTS:
+        for h in ["a.com", "A.COM", "1.2.3.4", "xn--bcher-kva.de"]:
+            for t in ["", "/x", "?q"]:
+                out.append("https://" + h + po + t)
+    n = 1500 if tier == "quick" else 30000
+    for _ in range(n):
+        if rng.random() < 0.8:
+            out.append(
+                rng.choice(U_PROTOS) + rng.choice(U_UIS)
+                + rng.choice(U_HOSTS + (U_HOSTS_ODD if rng.random() < 0.1 else []))
+                + rng.choice(U_PORTS)
+                + rng.choice(U_TAILS + (U_TAILS_AT if rng.random() < 0.3 else []))
+            )
+        else:
+            out.append(rng.choice(U_RELATIVE) + rng.choice(["", "?q=%7E", "#f", "/..", "/%2E%2E/z"]))
+    return out
+
+
+def url_cases(rng, tier):
+    for c in url_corpus():
+        yield c
+    hs = url_hrefs(rng, tier)
+    k = 5
+    for i in range(0, len(hs), k):
+        yield url_doc(hs[i : i + k], BASES[(i // k) % len(BASES)])
+
+
+# ----------------------------------------------------------------------------------------
 # structured documents
 # ----------------------------------------------------------------------------------------
 def anchor(href, style="dq", pre="", post="", upper=False, closed=True, inner="t", sep=" "):
@@ -430,6 +521,8 @@ def corpus():
 def cases(rng, tier):
     for c in corpus():
         yield c
+    for c in url_cases(rng, tier):
+        yield c
     full = full_inventory()
     core = core_inventory()
     nb = len(BASES)
@@ -574,10 +667,15 @@ def canon(op, out):
 
 
 def impl(case):
-    out = [_spans(case["doc"]), _urls(case["doc"]), _urls(case["doc"].encode("utf-8"))]
+    hs = _urls(case["doc"])
+    out = [_spans(case["doc"]), hs, _urls(case["doc"].encode("utf-8"))]
     for combo in COMBOS:
         for as_bytes in (False, True):
             out.append(_links(case, as_bytes, combo))
+    if isinstance(hs, list):
+        for combo, w in zip(COMBOS, _concrete_plan(case, hs)):
+            if w is not None:
+                out.append(_links(case, False, combo))
     return out
 
 
@@ -684,6 +782,116 @@ def _tables(case, combo, hrefs):
     return t
 
 
+def _resolved_strings(case, combo, hrefs):
+    """every string one of the parser models (urlsplit / accessors inside is_url, urljoin,
+    canonicalize_url) is applied to for this case and option setting, computed with the REAL
+    functions: base, canonical base, hrefs, resolved hrefs, canonical resolved hrefs"""
+    m = _m()
+    c, _u, s = combo
+    canon, proto, urljoin = m["canon"], m["pat"].PROTOCOL_RE, m["utils"].urljoin
+    base = case["base"]
+    out = [base]
+    if c:
+        try:
+            base = canon(base, strip_fragment=s)
+        except Exception:  # noqa
+            return out
+        out.append(base)
+    for h in hrefs:
+        if not isinstance(h, str) or not h:
+            continue
+        out.append(h)
+        if proto.match(h):
+            r = h
+        else:
+            try:
+                r = urljoin(base, h)
+            except ValueError:
+                continue
+            out.append(r)
+        if c:
+            try:
+                out.append(canon(r, strip_fragment=s))
+            except Exception:  # noqa
+                pass
+    return out
+
+
+_XN = re.compile(r"(?i)xn--[^./?#:@\\\[\]]*")
+
+
+def outside_concrete(strings):
+    """None, or why the case is outside the stated domain of the component models
+    (Py/UrlAccessors.lean header: str.lower on a non-ASCII cased character of a host, NFKC
+    check, IPv4 tail in an IPv6 literal) — decided from the REAL parser's answers"""
+    import urlrt
+    import canon_common as cc
+
+    for x in strings:
+        for y in (x, x.strip(), "http://" + x.strip()):
+            why = urlrt.outside_model(y)
+            if why:
+                return why
+        try:
+            why = urlrt.outside_model(cc.clean_impl(x, "https"))
+        except Exception:  # noqa
+            why = None
+        if why:
+            return why
+    return None
+
+
+_puny_memo, _tld_memo = {}, {}  # pure functions of the label (per worker process)
+
+
+def concrete_world(strings):
+    """the two tables the concrete model still takes from outside: attempt_to_decode_idna on
+    every xn-- label in sight, is_valid_tld on every label of every hostname in sight"""
+    m = _m()
+    puny_fn, safe_urlsplit = m["utils"].attempt_to_decode_idna, m["utils"].safe_urlsplit
+    from ural.tld import is_valid_tld
+
+    puny, tlds = {}, {}
+    for x in set(strings):
+        for mt in _XN.finditer(x):
+            k = mt.group(0)
+            k = k[:4].lower() + k[4:]
+            for kk in (k, "".join(ch.lower() if ch.isascii() else ch for ch in k)):
+                if kk not in puny:
+                    if kk not in _puny_memo:
+                        _puny_memo[kk] = puny_fn(kk)
+                    puny[kk] = _puny_memo[kk]
+        for t in (x, x.strip()):
+            try:
+                h = safe_urlsplit(t).hostname
+            except ValueError:
+                h = None
+            if h:
+                for lab in h.split("."):
+                    if lab not in tlds:
+                        if lab not in _tld_memo:
+                            _tld_memo[lab] = bool(is_valid_tld(lab))
+                        tlds[lab] = _tld_memo[lab]
+    return puny, sorted([k, v] for k, v in tlds.items())
+
+
+_plan_cache = {}
+
+
+def _concrete_plan(case, hrefs):
+    """per option combination: None (outside the models' domain, line withheld) or the world"""
+    key = (case["doc"], case["base"])
+    if key in _plan_cache:
+        return _plan_cache[key]
+    if len(_plan_cache) > 64:
+        _plan_cache.clear()
+    plan = _plan_cache[key] = []
+    for combo in COMBOS:
+        ss = _resolved_strings(case, combo, hrefs)
+        plan.append(None if outside_concrete(ss) else concrete_world(ss))
+    return plan
+
+
 def ops(case):
     doc = case["doc"]
     if not in_unescape_subset(doc):
@@ -705,6 +913,12 @@ def ops(case):
             o = {"f": "links_from_html", "doc": doc, "bytes": as_bytes, "base": case["base"], "canonicalize": combo[0], "unique": combo[1]}
             o.update(t)
             out.append(o)
+    # the same calls with the parameters INSTANTIATED (linksFromHtmlConcrete): nothing is
+    # shipped but the idna codec and the TLD table
+    if isinstance(hs, list):
+        for combo, w in zip(COMBOS, _concrete_plan(case, hs)):
+            if w is not None:
+                out.append({"f": "links_concrete", "doc": doc, "bytes": False, "base": case["base"], "canonicalize": combo[0], "unique": combo[1], "strip_fragment": combo[2], "puny": w[0], "tlds": w[1]})
     return out
 
 
@@ -723,7 +937,7 @@ def oracle(case):
     known finding never masks something else in the same case), else the first failure"""
     fails = _oracle_all(case)
     for f in fails:
-        if not (kf_astral_idn(case, f) or kf_one_digit_port(case, f)):
+        if not any(k(case, f) for k in KF_PREDICATES):
             return f
     return fails[0] if fails else None
 
@@ -839,6 +1053,96 @@ def kf_one_digit_port(case, failure):
     return port is not None and 0 <= port <= 9 and re.search(r":\d(?:$|[/?#])", l) is not None
 
 
+def _origins(case, failure):
+    """the resolved hrefs of the document whose canonical form is the refused link of a
+    `not-is_url` failure with canonicalize=True (recomputed with the real functions)"""
+    if not failure.startswith("not-is_url:") or "canonicalize=True" not in failure:
+        return []
+    l = _refused_link(failure)
+    if l is None:
+        return []
+    m = _m()
+    canon, proto, urljoin = m["canon"], m["pat"].PROTOCOL_RE, m["utils"].urljoin
+    s = "strip_fragment=True" in failure
+    try:
+        base = canon(case["base"], strip_fragment=s)
+    except Exception:  # noqa
+        return []
+    hs = _urls(case["doc"])
+    out = []
+    for h in hs if isinstance(hs, list) else []:
+        if not h:
+            continue
+        try:
+            r = h if proto.match(h) else urljoin(base, h)
+            if m["is_url"](r, **IS_URL_KW) and canon(r, strip_fragment=s) == l:
+                out.append(r)
+        except Exception:  # noqa
+            pass
+    return out
+
+
+def _authority_only(r):
+    """scheme://netloc of a resolved href, as the parser reads it"""
+    sp = _std_urlsplit(r.strip())
+    return sp.scheme + "://" + sp.netloc, sp
+
+
+def kf_userinfo_crosses_authority(case, failure):
+    """KF-C17-3: canonicalize=True; the refused link comes from an href that is_url accepts only
+    because the userinfo of its patterns (\\S+ … @) reaches an '@' BEHIND the authority
+    (in the path, query or fragment): the authority alone ('scheme://netloc') is not an url for
+    is_url, and canonicalization (dot segments, strip_fragment) removed the '@'"""
+    for r in _origins(case, failure):
+        try:
+            auth, sp = _authority_only(r)
+        except ValueError:
+            continue
+        if "@" in sp.path + "?" + sp.query + "#" + sp.fragment and not _m()["is_url"](auth, **IS_URL_KW):
+            return True
+    return False
+
+
+def _labels_of(r):
+    try:
+        return (_std_urlsplit(r.strip()).hostname or "").split(".")
+    except ValueError:
+        return []
+
+
+def kf_puny_label_hyphen(case, failure):
+    """KF-C17-4: canonicalize=True; a label of the href's host is punycode ('xn--…') and its
+    idna decoding starts or ends with '-' or '_' (is_url accepts the ASCII spelling, whose label
+    starts with 'x', and refuses the decoded one)"""
+    puny = _m()["utils"].attempt_to_decode_idna
+    for r in _origins(case, failure):
+        for lab in _labels_of(r):
+            if lab[:4] == "xn--":
+                d = puny(lab)
+                if d != lab and d and (d[0] in "-_" or d[-1] in "-_"):
+                    return True
+    return False
+
+
+def kf_dotted_capital_i(case, failure):
+    """KF-C17-5: canonicalize=True; a label of the href's host holds U+0130, whose str.lower()
+    is TWO characters ('i' + U+0307), and the lower-cased label is longer than the 64
+    characters the is_url patterns allow"""
+    for r in _origins(case, failure):
+        try:
+            h = _std_urlsplit(r.strip()).netloc.rpartition("@")[2]
+        except ValueError:
+            continue
+        for lab in h.split("."):
+            if DOT_I in lab and len(lab.lower()) > 64 >= len(lab):
+                return True
+    return False
+
+
+# (kf_astral_idn / kf_one_digit_port are retired: repaired in /repo, a failure of these classes is a regression again)
+KF_PREDICATES = [kf_userinfo_crosses_authority, kf_puny_label_hyphen, kf_dotted_capital_i]
+
+
 # ----------------------------------------------------------------------------------------
 # evidence helpers
 # ----------------------------------------------------------------------------------------
@@ -897,4 +1201,11 @@ def classify(case):
         labs.append("well-formed")
     if not in_unescape_subset(case["doc"]):
         labs.append("outside-unescape-subset(model skipped)")
+    else:
+        hs = _urls(case["doc"])
+        if isinstance(hs, list):
+            n_out = sum(1 for w in _concrete_plan(case, hs) if w is None)
+            labs.append("concrete-model:%s" % ("all-8-settings" if n_out == 0 else "withheld(outside-parser-model)" if n_out == 8 else "some-settings"))
+    if case.get("note", "").startswith("KF-"):
+        labs.append("known-finding-witness")
     return sorted(set(labs))
